@@ -98,12 +98,17 @@ class Check:
     def add_from_path(self, prefix, outcome, func=None, meta=None):
         """Adopt the engine-generated obligations (bounds, invariants, callee preconditions) of a path."""
         for ob in outcome.obligations:
-            ob2 = I.Obligation(f"{self.pid}/{prefix}/{ob.kind}/{ob.name}", ob.hyps, ob.assumptions, ob.goal, ob.kind, dict(meta or {}))
-            if func:
-                ob2.meta["func"] = func
-                self.under_contract(func)
-                self.functions[func]["obligations"] += 1
-            self.obs.append(ob2)
+            goals = [(ob.name, ob.goal)]
+            if ob.kind in ("inv-step", "inv-init") and T.is_sym(ob.goal) and z3.is_and(ob.goal) and ob.goal.num_args() > 1:
+                # keep each query small: one obligation per conjunct of the invariant
+                goals = [(f"{ob.name}#{ci}", ob.goal.arg(ci)) for ci in range(ob.goal.num_args())]
+            for nm, goal in goals:
+                ob2 = I.Obligation(f"{self.pid}/{prefix}/{ob.kind}/{nm}", ob.hyps, ob.assumptions, goal, ob.kind, dict(meta or {}))
+                if func:
+                    ob2.meta["func"] = func
+                    self.under_contract(func)
+                    self.functions[func]["obligations"] += 1
+                self.obs.append(ob2)
 
     def add_identity(self, name, lhs, rhs, hyps, func=None, meta=None, side=True, _split=True):
         """lhs == rhs over the reals via atom abstraction; side conditions become their own obligations.
